@@ -83,6 +83,14 @@ def run(ctx):
     ctx.check("C09-R5", "Driver keeps the getter", len(sg) == 1 and sg[0].endswith(",shared_result().1)"), "Driver::init does not keep shared_result().1 (the getter) in the handle: %s" % sg, where(f))
     ev = [e for p in nonpanic(walk(f)) for e in event_strs(p)]
     ctx.check("C09-R5", "worker receives the setter", any(re.match(r"^Worker::new\(.*,shared_result\(\)\.0\)$", e) for e in ev), "Worker::new does not receive shared_result().0 (the setter)", where(f))
+    f = A.fn("wtransport::driver::utils::shared_result")
+    lf = [canon(p.leaf[1], keep_sites=True) for p in nonpanic(walk(f)) if p.leaf[0] == "return"]
+    m = re.match(r"^\(SharedResultSet::new\(\)@(\d+),SharedResultSet::subscribe\(SharedResultSet::new\(\)@(\d+)\)@\d+\)$", lf[0]) if len(lf) == 1 else None
+    ctx.check("C09-R5", "the getter is subscribed to its own setter", m is not None and m.group(1) == m.group(2), "shared_result() does not return (setter, setter.subscribe()): %s" % lf, where(f))
+    shared.forwarders(ctx, "C09-R5", {
+        r"^wtransport::driver::utils::SharedResultSet::new$": (r"^return SharedResultSet\(Arc::new\(channel\(Option::None\)\.0\)\)$", []),
+        r"^wtransport::driver::utils::SharedResultSet::subscribe$": (r"^return SharedResultGet\(Mutex::new\(Sender::subscribe\(self\.0\)\)\)$", []),
+    }, "shared result")
     f = A.find1(r"^wtransport::driver::utils::SharedResultSet::closed::\{closure#0\}$")
     ev = [e for p in nonpanic(walk(f)) for e in event_strs(p)]
     ctx.check("C09-R5", "closed() awaits watch::Sender::closed", any(re.match(r"^await Sender::closed\(", e) for e in ev), "SharedResultSet::closed does not await watch::Sender::closed: %s" % ev, where(f))
